@@ -7,10 +7,12 @@ package c02
 import (
 	"encoding/json"
 	"fmt"
+	"strings"
 
 	"github.com/openconfig/goyang/pkg/yang"
 	"verif/mc/core"
 	"verif/mc/gen/lexspace"
+	"verif/mc/gen/scale"
 	"verif/mc/ref/rfcread"
 )
 
@@ -68,7 +70,58 @@ func check(text string) (f *fail, excluded string, accepted bool, nstmts int) {
 	return nil, "", false, 0
 }
 
+// deepTexts: statements nested n deep in compact and one-brace-per-line layout, balanced, with one
+// closer too many followed by a statement, with one closer missing, with empty blocks and with a
+// comment between the closers.
+func deepTexts(n int) []string {
+	var out []string
+	for _, pretty := range []bool{false, true} {
+		t := scale.Nested(n, pretty)
+		out = append(out, t, t+"x;}", t+"}x;", strings.TrimSuffix(strings.TrimSuffix(t, "\n"), "}"))
+	}
+	open, close := strings.Repeat("k{", n), strings.Repeat("}", n)
+	out = append(out, open+close, open+"a b;"+strings.Repeat("}/*c*/", n), open+"a b;"+close+close, strings.Repeat("k a;", n), strings.Repeat("k{}", n))
+	return out
+}
+
 func run(c *core.Ctx) {
+	if c.Shard == "deep" {
+		sizes := []int{}
+		for n := 1; n <= 300; n++ {
+			sizes = append(sizes, n)
+		}
+		sizes = append(sizes, 511, 512, 513, 1023, 1024, 1025)
+		c.Res.Bound = "nesting depth 1..300, 511..513, 1023..1025 in 13 layouts"
+		for _, n := range sizes {
+			for _, text := range deepTexts(n) {
+				if c.Expired() {
+					return
+				}
+				caseNo, run := c.Begin()
+				if c.Skip(caseNo, run, Input{text}) {
+					continue
+				}
+				c.Exec()
+				c.Edge(1)
+				c.StateN(1)
+				c.Validate()
+				f, excl, acc, ns := check(text)
+				switch {
+				case excl != "":
+					c.Outcome("excluded:" + excl)
+				case f != nil:
+					c.Outcome("FAIL:" + f.fp)
+					c.Fail(caseNo, nil, "deep:"+f.fp, Input{text}, f.exp, f.obs)
+				case acc && ns > 0:
+					c.NontrivialN(1)
+					c.Outcome("accepted-forest-equal")
+				default:
+					c.Outcome("rejected-by-both")
+				}
+			}
+		}
+		return
+	}
 	sp, idx := lexspace.Find(c.Tier, c.Shard)
 	c.Res.Bound = "L1: all strings of <= 6 (thorough 7; 8 over a 10-symbol sub-alphabet) symbols over a 15-symbol lexical alphabet; L2: <= 5 (7) lexical pieces of 17; L2s: one statement whose argument is <= 6 (7) pieces of 13, keyword k / pattern / tab-indented, and <= 5 (6) pieces after a same-line comment or single-quoted piece holding a multi-byte rune"
 	n := 0
@@ -133,8 +186,8 @@ func replay(tier string, raw json.RawMessage) (bool, string, string) {
 
 func init() {
 	core.Register(&core.Prop{
-		ID: "C02", Variant: "plain", Shards: lexspace.Shards, Run: run, Replay: replay,
-		Rule:        "every symbol sequence up to the bound over three small lexical alphabets (characters; lexical pieces such as quotes, escapes, comments, braces, the keyword pattern; pieces inside one statement argument incl. tabs, multi-byte runes, CR LF, same-line comments and single-quoted strings before a multi-line string) is parsed by yang.Parse and by a reference reader written from RFC 7950 section 6; accept/reject must agree, accepted forests must be equal in keywords, argument presence, exact argument strings, nesting and order, rejections must return no statements and a non-empty error; texts containing one of the four constructs the property excludes (or whose reading depends on how a tab is counted) are counted as excluded; states = distinct symbol sequences; non-trivial = accepted with at least one statement",
+		ID: "C02", Variant: "plain", Shards: func(tier string) []string { return append(lexspace.Shards(tier), "deep") }, Run: run, Replay: replay,
+		Rule:        "every symbol sequence up to the bound over three small lexical alphabets (characters; lexical pieces such as quotes, escapes, comments, braces, the keyword pattern; pieces inside one statement argument incl. tabs, multi-byte runes, CR LF, same-line comments and single-quoted strings before a multi-line string) is parsed by yang.Parse and by a reference reader written from RFC 7950 section 6; accept/reject must agree, accepted forests must be equal in keywords, argument presence, exact argument strings, nesting and order, rejections must return no statements and a non-empty error; statements nested 1..300 (and 511..513, 1023..1025) deep in compact and one-brace-per-line layouts, balanced and unbalanced; texts containing one of the four constructs the property excludes (or whose reading depends on how a tab is counted) are counted as excluded; states = distinct symbol sequences; non-trivial = accepted with at least one statement",
 		Assumptions: []string{"the reference reader (ref/rfcread) is the RFC reading", "small alphabets and lengths stand for all texts (small-scope hypothesis)"},
 	})
 }
